@@ -6,7 +6,7 @@
    among equally ranked free workers in any way.  [final inp] is the
    dispatcher state after the run, [trace inp] what was observable. *)
 From Coq Require Import ZArith List Bool Lia.
-From Verif Require Import C12.Model C12.Spec C12.Proofs C12.ProofsJ C12.ProofsM C12.LoopModel C12.LoopProofs C12.TimerModel C12.TimerProofs.
+From Verif Require Import C12.Model C12.Spec C12.Proofs C12.ProofsJ C12.ProofsM C12.LoopModel C12.LoopProofs C12.TimerModel C12.TimerProofs C12.WakeModel C12.WakeProofs.
 Import ListNotations.
 Open Scope Z_scope.
 
@@ -367,6 +367,72 @@ Theorem C12_loop_exactly_one_verdict : forall ls b,
   (stopped (disp c) = true -> 0 <= b < batchIndex (disp c) -> vcount b c = 1%nat).
 Proof. exact loop_exactly_one. Qed.
 Print Assumptions C12_loop_exactly_one_verdict.
+
+(* Every send of the worker machine has quit as an alternative: a result is
+   only ever offered from a WSend state — also the ErrJobCanceled of a job
+   that was already cancelled when it was picked up, which goes through the
+   same final send — and from every state, WSend included, quit makes Run
+   return without the dispatcher taking anything. *)
+Theorem C12_worker_every_send_has_quit_alternative : forall j,
+  (forall s e err, wres (snd (wstep s e)) = Some (j, err) -> s = WSend j err /\ e = WTake) /\
+  fst (wstep WIdle (WJob j true)) = WSend j JCanceled /\
+  (forall e, fst (wstep (WSend j e) WQuit) = WGone (Some j)) /\
+  (forall s, exists l, fst (wstep s WQuit) = WGone l).
+Proof.
+  intros j. split; [intros s e err; apply wres_only_from_send|].
+  split; [reflexivity|]. split; [intros e; reflexivity | apply wquit_gone].
+Qed.
+Print Assumptions C12_worker_every_send_has_quit_alternative.
+
+(* In the closed loop: after Quit, in whatever state it arrives (workers
+   holding results nobody has taken, cancelled jobs draining), every worker's
+   Run has returned — without the dispatcher taking any further result — so
+   Stop's wait on the workers ends. *)
+Theorem C12_loop_quit_stops_every_worker : forall ls l p x,
+  lev l = CQuit -> z_get (wst (cstep (crun ls) l)) p = Some x -> exists lo, x = WGone lo.
+Proof. exact loop_quit_all_gone. Qed.
+Print Assumptions C12_loop_quit_stops_every_worker.
+
+(* The wake of an expired idle timer is never lost (WakeModel.v: the closed
+   loop with the wakes on their way from the timer callbacks to the
+   dispatcher).  While the dispatcher runs, every wake ever fired has been
+   received by the dispatcher or is still pending, whatever the dispatcher
+   did in between and however many were fired; a pending wake stays pending
+   through every step that is not a delivery; and delivering the wake of the
+   current idle timer of a live batch gives that batch its timeout verdict. *)
+Theorem C12_idle_timer_wakes_never_lost : forall ls,
+  running (trun ls) = true -> Permutation.Permutation (fired (trun ls)) (taken (trun ls) ++ pend (trun ls)).
+Proof. exact wakes_conserved. Qed.
+Print Assumptions C12_idle_timer_wakes_never_lost.
+
+Theorem C12_pending_wake_stays_until_delivered : forall t l x,
+  In x (pend t) -> (forall i picks pcs, l <> TDeliver i picks pcs) ->
+  running (tstep t l) = true -> In x (pend (tstep t l)).
+Proof. exact pending_stays. Qed.
+Print Assumptions C12_pending_wake_stays_until_delivered.
+
+Theorem C12_delivered_current_wake_times_batch_out : forall t i b g bt picks pcs,
+  running t = true -> nth_error (pend t) i = Some (b, g) ->
+  z_get (batches (disp (base t))) b = Some bt -> progGen bt = g ->
+  let t' := tstep t (TDeliver i picks pcs) in
+  vlog (base t') = vlog (base t) ++ [(b, VTimeout)] /\
+  z_get (batches (disp (base t'))) b = None /\
+  pend t' = remove_nth i (pend t).
+Proof. exact deliver_current_wake. Qed.
+Print Assumptions C12_delivered_current_wake_times_batch_out.
+
+(* Non-vacuity: 20 batches with idle timers, all timers fire before the
+   dispatcher takes any wake; all 20 are pending, and delivering them one by
+   one times every batch out. *)
+Example C12_wakes_nonvacuous :
+  let mk := fun e => TOther {| lev := e; lpicks := []; lpcs := [] |} in
+  let t1 := trun (map (fun _ => mk (CNewBatch 1 false 2 1)) (seq 0 20) ++
+                  map (fun i => TFire (Z.of_nat i) 1) (seq 0 20)) in
+  length (pend t1) = 20%nat /\
+  let t2 := fold_left tstep (map (fun _ => TDeliver 0 [] []) (seq 0 20)) t1 in
+  pend t2 = [] /\ map snd (vlog (base t2)) = map (fun _ => VTimeout) (seq 0 20) /\
+  batches (disp (base t2)) = [].
+Proof. vm_compute. repeat split; reflexivity. Qed.
 
 (* Non-vacuity of the closed loop: two peers; batch 0 (two requests, one
    retried after a job timeout and once more after its peer disconnected,
